@@ -67,6 +67,10 @@ pub enum Cmd {
     Subscribe { p: usize, prefix: String },
     Unsubscribe { p: usize, sub: usize },
     Forever { p: usize, sub: usize },
+    /// the application drops (attach false) or re-opens (attach true) its receiver of p's
+    /// live-members watch channel; without one the harness reads the channel through a receiver it
+    /// opens after each evaluation and drops at once
+    Watch { p: usize, attach: bool },
     /// p copies q's copy of incarnation `member` through reset_node_state_if_update
     Catchup { p: usize, member: usize, q: usize },
     /// hostile bytes delivered to `to` (hex)
@@ -101,6 +105,8 @@ impl Cmd {
             Cmd::Subscribe { .. } => "subscribe",
             Cmd::Unsubscribe { .. } => "unsubscribe",
             Cmd::Forever { .. } => "forever",
+            Cmd::Watch { attach: true, .. } => "watch_attach",
+            Cmd::Watch { attach: false, .. } => "watch_detach",
             Cmd::Catchup { .. } => "catchup",
             Cmd::Inject { .. } => "inject",
             Cmd::Handshake { .. } => "handshake",
